@@ -46,6 +46,7 @@ var vC13Groups = [][]string{
 	{"WebRTCAddress"}, {"WebRTCAllowOrigins"}, {"WebRTCLocalUDPAddress"}, {"WebRTCHandshakeTimeout"}, {"WebRTCTrackGatherTimeout"},
 	{"SRTAddress"},
 	{"RTSPUDPReadBufferSize"},
+	{"MoQQUICAddress"}, {"MoQAllowOrigins"},
 }
 
 type vC13Mut struct {
@@ -72,6 +73,8 @@ func (m *vC13Mut) apply(c *conf.Conf, name string) bool {
 			} else {
 				f.SetString("224.1.0.0/16")
 			}
+		case name == "RTCPAddress" || name == "SRTCPAddress": // must follow the RTP port just chosen
+			f.SetString(fmt.Sprintf(":%d", m.port+1))
 		case strings.HasSuffix(name, "Address"):
 			f.SetString(fmt.Sprintf(":%d", m.nextPort()))
 		default:
@@ -162,11 +165,16 @@ webrtcAddress: :%d
 webrtcLocalUDPAddress: :%d
 srt: yes
 srtAddress: :%d
-moq: no
+moq: yes
+moqHTTP2Address: :%d
+moqHTTP3Address: :%d
+moqQUICAddress: :%d
+moqServerKey: %s
+moqServerCert: %s
 paths:
   all_others:
 `, base, base+1, base+2, base+3, key, crt, base+4, base+5, base+10, base+11, base+12, base+13, key, crt,
-		base+6, base+7, base+8, base+9, base+14, base+15)
+		base+6, base+7, base+8, base+9, base+14, base+15, base+16, base+16, base+17, key, crt)
 	cf := filepath.Join(dir, "mediamtx.yml")
 	os.WriteFile(cf, []byte(yml), 0o644)
 
@@ -177,7 +185,7 @@ paths:
 	defer p.Close()
 
 	// the corpus first: the groups behind past findings, then a seeded selection
-	order := []int{0, 23, 24, 26, 40, 0}
+	order := []int{0, 23, 24, 26, 40, 41, 0}
 	rest := make([]int, 0, len(vC13Groups))
 	for i := range vC13Groups {
 		rest = append(rest, i)
